@@ -36,6 +36,9 @@ class C03(Prop):
             cases.append(histlib.gen_c03_case(rnd, rnd.randint(15, 45), fl))
         return cases
 
+    def corpus(self):
+        return histlib.load_corpus(self.id)
+
     def compare(self, a, b):
         return histlib.compare(a, b)
 
